@@ -45,7 +45,8 @@ func regressionScenarios(prop string) []regression {
 	neg := func(e *Expr) *Expr { return eParen(true, e) }
 	fl := mk(
 		&Rule{Name: "Count", Desc: "", Sal: 0,
-			When: mkBin("&&", mkBin("<", eVar(vPath("F", "I64")), cInt(3)), neg(mkBin("==", eVar(vPath("F", "S")), cStr("stop")))),
+			When: mkBin("&&", mkBin("&&", mkBin("<", eVar(vPath("F", "I64")), cInt(3)), neg(mkBin("==", eVar(vPath("F", "S")), cStr("stop")))),
+				mkBin("<", method(aVar(vName("F")), "Sum", eVar(vPath("F", "I64")), cInt(1)), cInt(9))),
 			Then: []*Stmt{assign(vPath("F", "I64"), "+=", cInt(1)),
 				assign(vSel(vPath("F", "Arr"), cInt(1)), "=", mkBin("+", eVar(vSel(vPath("F", "Arr"), cInt(0))), eVar(vPath("F", "I64")))),
 				assign(vSel(vPath("F", "M"), cStr("a")), "=", mkBin("+", eVar(vSel(vPath("F", "M"), cStr("b"))), cInt(1)))}},
